@@ -4,10 +4,10 @@
 package gomatrixserverlib
 
 import (
-	"strings"
 	"context"
 	"fmt"
 	"sort"
+	"strings"
 
 	"pgregory.net/rapid"
 )
